@@ -54,6 +54,8 @@ def goodCfg (h : Host) : Cfg :=
     statusCatch := ["ZombieProcess"]
     exeCatch := ["AccessDenied"]
     exeGuessCatch := ["AccessDenied"]
+    guessClauses := []
+    guessTailRaises := true
     wrapped := ["_parse_smaps", "_parse_stat_file", "_read_smaps_file", "_read_status_file", "cmdline",
                 "cpu_affinity_get", "cpu_affinity_set", "cpu_num", "cpu_times", "create_time", "cwd", "environ",
                 "exe", "gids", "io_counters", "ionice_get", "ionice_set", "memory_full_info", "memory_info",
